@@ -164,10 +164,13 @@ impl CompressionCodecState {
 						.map_err(|deflate_error| error("Bzip2", &deflate_error))?;
 					let written = compress.total_in() as usize - before_in;
 					match status {
-						bzip2::Status::MemNeeded => {
+						bzip2::Status::MemNeeded | bzip2::Status::FinishOk => {
 							// There may be more to write.
 							// That may be true even if the input is empty, because bzip2
 							// may have buffered some input.
+							// (`FinishOk` is what libbz2 returns when finishing while
+							// there is still pending output, that is, the output buffer
+							// is full)
 							input = &input[written..];
 							self.output_vec.resize(self.output_vec.len() * 2, 0);
 						}
@@ -177,7 +180,7 @@ impl CompressionCodecState {
 								&format_args!("got unexpected status from bzip2: {status:?}"),
 							));
 						}
-						bzip2::Status::FinishOk | bzip2::Status::StreamEnd => {
+						bzip2::Status::StreamEnd => {
 							assert_eq!(input.len(), written);
 							*len = compress.total_out() as usize;
 							break;
